@@ -38,6 +38,16 @@ def _mutate(name):
         ns = dict(src_fn.__globals__)
         exec(code, ns)
         zt.PageTemplate.parse = ns['parse']
+    elif name == 'incremental_encoder_cached':
+        import codecs
+
+        def render(self, **vars):
+            result = zt.PageTemplateFile.render(self, **vars)
+            encode = self.__dict__.get('_encode')
+            if encode is None:
+                encode = self.__dict__['_encode'] = codecs.getincrementalencoder(self.encoding or 'utf-8')().encode
+            return encode(result)
+        zt.PageTextTemplateFile.render = render
     elif name == 'dollar_kept':
         src_fn = zp.MacroProgram.visit_text
         code = textwrap.dedent(inspect.getsource(src_fn)).replace("node = node.replace('$$', '$')", "node = node")
@@ -67,6 +77,8 @@ def _mutate(name):
 def prepare(cfg):
     if cfg.get('mutant'):
         _mutate(cfg['mutant'])
+    if cfg.get('file'):
+        prepare_file(cfg)
     if cfg.get('template'):
         shape = TEMPLATES[cfg['template']]
         text = ''.join('${v}' if isinstance(p, int) else ('${' + p[1] + '}' if isinstance(p, list) else p)
@@ -152,3 +164,58 @@ def explain(cfg, *args):
 def render_entity_witness():
     """known-finding witness: returns True iff text mode leaves the expression text alone"""
     return PageTextTemplate("${'&amp;'}").render() == '&amp;'
+
+
+# ---- text template *files* render to bytes: the encoded form of the string result, on every call --------
+FILE_TEXT = 'Dear ${v},\n<b>&amp;</b> $$ ${w}\n'
+ENCODINGS = ['utf-8', 'latin-1', 'utf-16', 'utf-8-sig', 'utf-32', 'iso2022_jp']
+VALUES = ['a', 'caf\xe9', '<&>', '', 'あ']
+FPATH = '/model/mail.txt'
+
+
+def prepare_file(cfg):
+    from chameleon import PageTextTemplateFile
+    from chameleon import template as ct
+    from checks import hC16
+    ct.open = hC16.model_open
+    ct.os = hC16._ModelOS()
+    hC16.FILES.clear()
+    hC16.FILES[FPATH] = [FILE_TEXT.encode('utf-8'), 3]
+    STATE['ftpl'] = {}
+    STATE['stpl'] = PageTextTemplate(FILE_TEXT)
+    for enc in ENCODINGS:
+        t = PageTextTemplateFile(FPATH, encoding=enc)
+        t.cook_check()                    # compiled natively; nothing rendered yet
+        STATE['ftpl'][enc] = t
+
+
+def pickv(table, idx):
+    for j in range(len(table)):
+        if idx == j:
+            return table[j]
+    raise IndexError(idx)
+
+
+def file_bytes(e: int, i0: int, i1: int, i2: int) -> bool:
+    """
+    pre: 0 <= e < 6 and 0 <= i0 < 5 and 0 <= i1 < 5 and 0 <= i2 < 5
+    post: _
+    """
+    import copy
+    from vlib.notrace import NoTracing
+    enc = pickv(ENCODINGS, e)
+    vals = [pickv(VALUES, i) for i in (i0, i1, i2)]
+    with NoTracing():
+        # an instance of its own per history (a shallow copy shares the compiled program, not the state)
+        t = copy.copy(STATE['ftpl'][enc])
+        s = STATE['stpl']
+        ok = True
+        for n, v in enumerate(vals):
+            want = s.render(v=v, w=n)
+            try:
+                wb = want.encode(enc)
+            except UnicodeEncodeError:
+                continue                          # not expressible in this encoding: no claim
+            got = t.render(v=v, w=n)
+            ok = ok and isinstance(got, bytes) and got == wb and got.decode(enc) == want
+    return _res(ok)
